@@ -99,6 +99,20 @@ def check_assembly(case, ctx):
         S0[s, s] += k0
         SG[s, s] += kg
         SM[s, s] += km
+    # state-based geometric stiffness: the stress state comes from the amplitude vector, panel by panel (also for panels that
+    # carry no prescribed load of their own)
+    rs = np.random.RandomState(len(case['order']) + 7 * size)
+    cvec = rs.uniform(-1., 1., size) * 1e-3 * min(pkg.lam_h(pc) for pc in case['panels'])
+    with package(name + '.kG0(c)'):
+        KGc = dense(ass.calc_kG0(c=cvec.copy(), silent=True))
+    SGc = np.zeros((size, size))
+    for p, pc in zip(panels, case['panels']):
+        q = pkg.make_panel(pc)
+        q.Nxx, q.Nyy, q.Nxy = pc['N']
+        with package(name + '.standalone'):
+            kgc = dense(q.calc_kG0(c=cvec[p.row_start:p.row_end].copy(), silent=True))
+        SGc[p.row_start:p.row_end, p.row_start:p.row_end] += kgc
+    ctx.close('kG0(c)', KGc, SGc, TOL, bucket=name + '.kG0(c)!=sum', scale=np.max(np.abs(SGc)) or 1.)
     ctx.close('k0', K0, S0, TOL, bucket=name + '.k0!=sum')
     ctx.close('kG0', KG, SG, TOL, bucket=name + '.kG0!=sum', scale=np.max(np.abs(SG)) or 1.)
     ctx.close('kM', KM, SM, TOL, bucket=name + '.kM!=sum')
@@ -289,7 +303,7 @@ def _assembly_strategy(draw, tier='quick'):
         if pc['model'] == 'cpanel':
             pc['r'] = max(a, b) * 10.
         pc['explicit_model'] = True
-        pc['N'] = [draw(gen.fl(-100., 100.)) for _ in range(3)]
+        pc['N'] = [draw(gen.fl(-100., 100.)) for _ in range(3)] if draw(st.integers(0, 3)) else [None, None, None]
         panels.append(pc)
     conn = []
     for k in range(npan - 1):
